@@ -10,7 +10,7 @@ import (
 	"github.com/tonistiigi/fsutil/zz_verif/v"
 )
 
-func entryGoMode(e *m.Entry) uint32 {
+func vh_entryGoMode(e *m.Entry) uint32 {
 	p := e.Perm
 	mode := p & 0777
 	mode |= ((p >> 11) & 1) << 23
@@ -40,7 +40,7 @@ func VH_C09_walk() {
 	m.Reset()
 	root := m.Root("src")
 	perm := func() uint32 { return v.U32("perm") & 07777 }
-	m.MkDir(root+"/a", perm(), v.U32("uid"), v.U32("gid"), chooseMtime("mtime"))
+	m.MkDir(root+"/a", perm(), v.U32("uid"), v.U32("gid"), vh_chooseMtime("mtime"))
 	var files []string
 	mkfile := func(p string) {
 		// a regular file: either its own inode or a further name of an earlier regular file
@@ -52,7 +52,7 @@ func VH_C09_walk() {
 				return
 			}
 		}
-		m.MkFile(root+"/"+p, v.Bytes("data", v.Choose("size", 2)), perm(), v.U32("uid"), v.U32("gid"), chooseMtime("mtime"))
+		m.MkFile(root+"/"+p, v.Bytes("data", v.Choose("size", 2)), perm(), v.U32("uid"), v.U32("gid"), vh_chooseMtime("mtime"))
 		files = append(files, p)
 	}
 	mkfile("a/x")
@@ -60,16 +60,16 @@ func VH_C09_walk() {
 	case 0:
 		mkfile("a-b")
 	case 1:
-		m.MkSymlink(root+"/a-b", "a/x", v.U32("uid"), v.U32("gid"), chooseMtime("mtime"))
+		m.MkSymlink(root+"/a-b", "a/x", v.U32("uid"), v.U32("gid"), vh_chooseMtime("mtime"))
 	case 2:
-		m.MkNode(root+"/a-b", m.KChar, perm(), 0x0501, v.U32("uid"), v.U32("gid"), chooseMtime("mtime"))
+		m.MkNode(root+"/a-b", m.KChar, perm(), 0x0501, v.U32("uid"), v.U32("gid"), vh_chooseMtime("mtime"))
 	}
 	mkfile("a.c")
 	if v.Bool("has-b") {
 		if v.Bool("b-links-symlink") {
 			// a second name for the symlink a-b itself (link(2) does not follow)
-			_, _, isLink := snapKind(m.Snapshot(root), "a-b")
-			k, _, _ := snapKind(m.Snapshot(root), "a-b")
+			_, _, isLink := vh_snapKind(m.Snapshot(root), "a-b")
+			k, _, _ := vh_snapKind(m.Snapshot(root), "a-b")
 			v.Assume(isLink && k == m.KSymlink)
 			m.MkLink(root+"/a-b", root+"/b")
 			v.Cover("hardlinked-symlink")
@@ -77,7 +77,7 @@ func VH_C09_walk() {
 			mkfile("b")
 		}
 	}
-	m.SetMtime(root+"/a", chooseMtime("mtime-a"))
+	m.SetMtime(root+"/a", vh_chooseMtime("mtime-a"))
 	snap := m.Snapshot(root)
 
 	fs, err := NewFS(root)
@@ -105,7 +105,7 @@ func VH_C09_walk() {
 	firstOf := map[uint64]string{}
 	for i, st := range got {
 		if i > 0 {
-			v.Assert(specCmp(got[i-1].Path, st.Path) < 0, "entries are reported in strictly ascending protocol order")
+			v.Assert(vh_specCmp(got[i-1].Path, st.Path) < 0, "entries are reported in strictly ascending protocol order")
 		}
 		var e *m.Entry
 		for j := range snap {
@@ -117,7 +117,7 @@ func VH_C09_walk() {
 			v.Assert(false, "every reported path exists")
 			continue
 		}
-		v.Assert(st.Mode == entryGoMode(e), "mode (type, permission, special bits) matches lstat")
+		v.Assert(st.Mode == vh_entryGoMode(e), "mode (type, permission, special bits) matches lstat")
 		v.Assert(st.Uid == e.Uid && st.Gid == e.Gid, "uid/gid match lstat")
 		v.Assert(st.ModTime == e.Mtime, "mtime matches lstat")
 		switch e.Kind {
